@@ -53,11 +53,11 @@ Section Vec.
 
   (* ---------------- DbVec::new ---------------- *)
   Lemma cv_new_spec sp (Q : cres cv_vec -> spec -> Prop) :
-    (forall h sp', vrep (hp sp') h [] [] -> cv_index h <> 0 -> hp sp (cv_index h) = None -> sdepth sp' = sdepth sp ->
+    (forall h sp', vrep (hp sp') h [] [] -> cv_index h <> 0 -> cv_index h < two64 -> hp sp (cv_index h) = None -> sdepth sp' = sdepth sp ->
         frame (hp sp) (hp sp') [] (foot h []) -> Q (CrOk h) sp') ->
     cwp fl cv_new sp Q.
   Proof.
-    intros HQ. unfold cv_new. apply cwp_bind. apply hwp_insert. intros i sp' Hi Hn Hm Hd. cbn [kont cwp].
+    intros HQ. unfold cv_new. apply cwp_bind. apply hwp_insert. intros i sp' Hi Hlt Hn Hm Hd. cbn [kont cwp].
     apply HQ; cbn [cv_index cv_len cv_cap]; auto.
     - constructor; cbn [cv_index cv_len cv_cap].
       + constructor.
